@@ -71,8 +71,9 @@ type config struct {
 }
 
 type op struct {
-	kind   string // aa | aip | rel | rbh | claim | relaff
+	kind   string // aa | aip | rel | rbh | claim | relaff | aam | aipm (the last two: with MaxAllocToHandlePerIPVersion)
 	must   bool   // relaff: mustBeEmpty
+	ma     int    // aam / aipm: MaxAllocToHandlePerIPVersion
 	h, tag int
 	num    int
 	addr   uint32
@@ -260,6 +261,10 @@ func (o *op) coq() string {
 			ss = append(ss, fmt.Sprintf("(%d%%N, %s)", r.addr, h))
 		}
 		return fmt.Sprintf("OpRelease [%s] %s", strings.Join(ss, "; "), hintlist(o.hint))
+	case "aam":
+		return fmt.Sprintf("OpAutoAssignM %d%%N %d%%N %d%%nat %d%%N %s", o.h, o.tag, o.num, o.ma, hintlist(o.hint))
+	case "aipm":
+		return fmt.Sprintf("OpAssignIPM %d%%N %d%%N %d%%N %d%%N %s", o.h, o.tag, o.addr, o.ma, hintlist(o.hint))
 	case "claim":
 		return fmt.Sprintf("OpClaimAffinity %d%%N", o.addr)
 	case "relaff":
@@ -284,6 +289,10 @@ func (o *op) text() string {
 			ss = append(ss, s)
 		}
 		return "ReleaseIPs(" + strings.Join(ss, ",") + ")"
+	case "aam":
+		return fmt.Sprintf("AutoAssign(h%d,tag%d,n=%d,maxAlloc=%d)", o.h, o.tag, o.num, o.ma)
+	case "aipm":
+		return fmt.Sprintf("AssignIP(h%d,tag%d,%s,maxAlloc=%d)", o.h, o.tag, ip4(o.addr), o.ma)
 	case "claim":
 		return fmt.Sprintf("ClaimAffinity(%s)", ip4(o.addr))
 	case "relaff":
@@ -339,10 +348,16 @@ func (w *world) blockAddrs(i int) []uint32 {
 func (w *world) genOp() *op {
 	r := w.r
 	nh := 3
-	switch k := r.intn(23); {
+	switch k := r.intn(27); {
+	case k == 23:
+		ma := 1 + r.intn(2)
+		return &op{kind: "aam", h: 1 + r.intn(nh), tag: 1 + r.intn(2), num: 1 + r.intn(ma), ma: ma} // num <= maxAlloc
+	case k >= 24:
+		total := w.cfg.nblocks * w.cfg.bsize
+		return &op{kind: "aipm", h: 1 + r.intn(nh), tag: 1 + r.intn(2), addr: w.cfg.base + uint32(r.intn(total)), ma: 1 + r.intn(2)}
 	case k == 20:
 		return &op{kind: "claim", addr: w.cfg.base + uint32(r.intn(w.cfg.nblocks)*w.cfg.bsize)}
-	case k >= 21:
+	case k == 21 || k == 22:
 		return &op{kind: "relaff", addr: w.cfg.base + uint32(r.intn(w.cfg.nblocks)*w.cfg.bsize), must: r.chance(50)}
 	case k < 8:
 		num := 1 + r.intn(3)
@@ -426,6 +441,12 @@ var scripts = []*script{
 		{{kind: "rbh", h: 1}}, {{kind: "rel", rel: []relOpt{{base0, 0}}}}, {{kind: "aip", h: 1, tag: 1, addr: base0}}},
 		sched: []schedEntry{{0, 1000, mb.Proceed}, {1, 2, mb.Proceed}, {2, 1000, mb.Proceed}, {1, 1, mb.Proceed},
 			{3, 1000, mb.Proceed}, {1, 1000, mb.Proceed}}},
+	// MaxAlloc = 1: a client increments the handle and dies before writing the block; the pod's retry (same handle,
+	// same address) must not be told it owns the address unless a written block records it
+	{name: "maxalloc-unwritten-block", ops: [][]*op{
+		{{kind: "aipm", h: 1, tag: 1, addr: base0, ma: 1}}, {{kind: "aipm", h: 1, tag: 1, addr: base0, ma: 1}},
+		{{kind: "aip", h: 2, tag: 1, addr: base0}}},
+		sched: []schedEntry{{0, 6, mb.Proceed}, {0, 1, mb.CrashBefore}, {1, 100000, mb.Proceed}, {2, 1000, mb.Proceed}}},
 }
 
 func runCase(seed uint64, conc bool, sc *script) (string, bool, string, map[string]any, []string) {
@@ -532,9 +553,9 @@ func runCase(seed uint64, conc bool, sc *script) (string, bool, string, map[stri
 				hs := fmt.Sprintf("h%d", o.h)
 				attrs := map[string]string{"tag": strconv.Itoa(o.tag)}
 				switch o.kind {
-				case "aa":
+				case "aa", "aam":
 					v4, _, err := ic.AutoAssign(ctx, ipam.AutoAssignArgs{Num4: o.num, HandleID: &hs, Attrs: attrs,
-						Hostname: hostname, IntendedUse: v3.IPPoolAllowedUseWorkload})
+						Hostname: hostname, IntendedUse: v3.IPPoolAllowedUseWorkload, MaxAllocToHandlePerIPVersion: o.ma})
 					res.isIPs, res.err = true, classifyErr(err)
 					if v4 != nil {
 						for _, ipn := range v4.IPs {
@@ -542,8 +563,9 @@ func runCase(seed uint64, conc bool, sc *script) (string, bool, string, map[stri
 							w.alloc[ipnum(ipn.IP)] = o.h
 						}
 					}
-				case "aip":
-					err := ic.AssignIP(ctx, ipam.AssignIPArgs{IP: cnet.IP{IP: ip4(o.addr)}, HandleID: &hs, Attrs: attrs, Hostname: hostname})
+				case "aip", "aipm":
+					err := ic.AssignIP(ctx, ipam.AssignIPArgs{IP: cnet.IP{IP: ip4(o.addr)}, HandleID: &hs, Attrs: attrs, Hostname: hostname,
+						MaxAllocToHandlePerIPVersion: o.ma})
 					res.err = classifyErr(err)
 					if err == nil {
 						w.alloc[o.addr] = o.h
@@ -657,6 +679,10 @@ func runCase(seed uint64, conc bool, sc *script) (string, bool, string, map[stri
 			if dec == mb.Conflict {
 				conflicts++
 			}
+			if dec == mb.CrashBefore || dec == mb.CrashAfter {
+				crashes++
+				crashed[id] = true
+			}
 		} else if (call.Op == "update" || call.Op == "delete") && r.chance(pConflict) {
 			dec = mb.Conflict
 			conflicts++
@@ -702,7 +728,7 @@ func runCase(seed uint64, conc bool, sc *script) (string, bool, string, map[stri
 		}
 		obs = append(obs, rec)
 		steps++
-		if steps > 4000 {
+		if steps > 1500 { // a handle stuck at its MaxAlloc limit makes autoAssign retry without end: cut the run
 			break
 		}
 	}
@@ -736,6 +762,57 @@ func runCase(seed uint64, conc bool, sc *script) (string, bool, string, map[stri
 				}
 			}
 		}
+	}
+
+	// MaxAlloc operations: the order in which IPsByHandle visited the handle's blocks = the block reads that
+	// follow two consecutive reads of the handle by the same client; the model takes one order per operation,
+	// so a case in which two such visits of one operation disagree is skipped (counted by main)
+	inconsistent := false
+	for _, cs := range clients {
+		for k, o := range cs.ops {
+			if o.kind != "aam" && o.kind != "aipm" {
+				continue
+			}
+			var mine []*obsRec
+			for _, ob := range obs {
+				if ob.client == cs.id && ob.opIdx == k {
+					mine = append(mine, ob)
+				}
+			}
+			pos := map[uint64]int{}
+			for j := 1; j < len(mine); j++ {
+				_, h1 := mine[j-1].call.Key.(model.IPAMHandleKey)
+				_, h2 := mine[j].call.Key.(model.IPAMHandleKey)
+				if !(h1 && h2 && mine[j-1].call.Op == "get" && mine[j].call.Op == "get" && mine[j].call.Result == "ok") {
+					continue
+				}
+				nblk := 0
+				if hv, ok := mine[j].call.Out.Value.(*model.IPAMHandle); ok {
+					nblk = len(hv.Block)
+				}
+				last := -1
+				for t := j + 1; t < len(mine) && t <= j+nblk; t++ {
+					bk, ok := mine[t].call.Key.(model.BlockKey)
+					if !ok || mine[t].call.Op != "get" {
+						break
+					}
+					id := uint64(ipnum(bk.CIDR.Addr().AsSlice()))
+					if p, seen := pos[id]; seen {
+						if p < last {
+							inconsistent = true
+						}
+						last = p
+					} else {
+						pos[id] = len(o.hint)
+						last = len(o.hint)
+						o.hint = append(o.hint, id)
+					}
+				}
+			}
+		}
+	}
+	if inconsistent {
+		return "", false, "", nil, nil
 	}
 
 	// ---- print
@@ -833,7 +910,7 @@ func runCase(seed uint64, conc bool, sc *script) (string, bool, string, map[stri
 			t = append(t, o.text())
 			if k < len(cs.results) {
 				rs := cs.results[k]
-				if o.kind == "aa" {
+				if o.kind == "aa" || o.kind == "aam" {
 					if len(rs.ips) > 0 {
 						nAssign++
 					}
@@ -841,7 +918,7 @@ func runCase(seed uint64, conc bool, sc *script) (string, bool, string, map[stri
 						partial = true
 					}
 				}
-				if o.kind == "aip" && rs.err == "ENone" {
+				if (o.kind == "aip" || o.kind == "aipm") && rs.err == "ENone" {
 					nAssign++
 				}
 				if (o.kind == "rel" && rs.err == "ENone" && len(rs.ips) < len(o.rel)) || (o.kind == "rbh" && rs.err == "ENone") {
@@ -999,6 +1076,7 @@ func main() {
 	claimBumps = probeClaimBumps()
 	rbhReturns = probeRbhReturns()
 	enc := json.NewEncoder(os.Stdout)
+	skipped := 0
 	for i := 0; i < *n; i++ {
 		if *only >= 0 && i != *only {
 			continue
@@ -1011,7 +1089,12 @@ func main() {
 			sc = &c
 		}
 		coq, nt, key, sample, tags := runCase(*seed*1000003+uint64(i)*7919, conc && sc == nil, sc)
+		if coq == "" {
+			skipped++
+			continue
+		}
 		sample["replay_args"] = fmt.Sprintf("-n %d -seed %d -mode %s -only %d", i+1, *seed, *mode, i)
 		_ = enc.Encode(line{Coq: coq, NT: nt, Key: key, Sample: sample, Tags: tags})
 	}
+	_ = enc.Encode(map[string]any{"stats": map[string]any{"skipped_inconsistent_map_order": skipped}})
 }
